@@ -8,7 +8,8 @@ from harness import core, tlc
 LEVEL = "model_checking"
 PID = "C11"
 
-FAMILIES = ["int_int", "int_slice", "slice_int", "slice_slice", "one", "lists"]
+FAMILIES = ["int_int", "int_slice", "slice_int", "slice_slice", "one", "lists", "mixed"]
+KINDS = ("int", "slice", "list")   # MTMVN.tla Kinds: the index kinds of an event dimension
 
 
 def write_mc(workdir, name, N, T, batch, inter, variant, family, steps):
@@ -92,16 +93,28 @@ def show_index(idx):
     return "[" + ", ".join(parts) + "]"
 
 
-def kinds(idx):
+def kinds(idx, nbatch=0):
+    """cell name of an index expression; the first `nbatch` items address batch dimensions and are marked "b." so that a
+    batch index tensor and an event index tensor never share a cell"""
     out = []
-    for it in idx:
+    for pos, it in enumerate(idx):
         k = it["k"]
+        if k == "ell":
+            nbatch = 0
         if k == "list":
             k = "tensor" + ("(neg)" if any(x < 0 for x in it["v"]) else "")
         if k == "slice":
             k = "slice" if (it["a"], it["b"], it["s"]) != (99, 99, 99) else ":"
-        out.append(k)
+        out.append(("b." if pos < nbatch else "") + k)
     return "x".join(out)
+
+
+def _has_neg(it):
+    if it["k"] == "int":
+        return it["v"] < 0
+    if it["k"] == "list":
+        return any(x < 0 for x in it["v"])
+    return any(x != 99 and x < 0 for x in (it["a"], it["b"]))
 
 
 def expected_cov(torch, r, labels):
@@ -148,7 +161,8 @@ def _worker(item):
         for k, step in enumerate(chain):
             idx = py_index(torch, step["idx"])
             lay = "interleaved" if getattr(cur, "_interleaved", True) else "non-interleaved"
-            cell = "C11/getitem/%s/%s" % (lay if hasattr(cur, "_interleaved") else "mvn", kinds(step["idx"]))
+            cell = "C11/getitem/%s/%s" % (lay if hasattr(cur, "_interleaved") else "mvn",
+                                          kinds(step["idx"], lab.dim() - 2 if hasattr(cur, "_interleaved") else 0))
             # oracle-side self check: the spec's Python semantics against torch indexing of the label tensor
             if hasattr(cur, "_interleaved") and not any(it["k"] == "ell" for it in step["idx"]) and len(step["idx"]) == lab.dim() - 1:
                 oidx = (idx if isinstance(idx, tuple) else (idx,)) + (slice(None),)
@@ -202,17 +216,21 @@ def configs(thorough):
         yield dict(N=N, T=T, batch=(), inter=inter, family="all", steps=1)
         yield dict(N=N, T=T, batch=(), inter=inter, family="small", steps=2 if not thorough else 3)
         if N * T <= 6:
-            yield dict(N=N, T=T, batch=(2,), inter=inter, family="all" if thorough else "small", steps=1)
+            # quick: the small family and every pairing of index kinds for the two event dimensions behind every batch item
+            yield dict(N=N, T=T, batch=(2,), inter=inter, family="all" if thorough else "small_pairs", steps=1)
 
 
 def run(ck):
     thorough = ck.tier == "thorough"
     core.setup_torch()
     ck.rule = ("cases = every index expression (ints incl. out of range, slices with start/stop in -(n+2)..n+2 or None and step None/1/2/3, "
-               "ellipsis, index tensors incl. negative entries, batch items) of the enumerated families on every (n, t, batch, layout), plus chains "
-               "d[i][j]; non-trivial = valid index selecting a proper subset; distinct = distinct (shape, layout, index chain)")
-    ck.assumptions = ["covariances are dense tensors with unique integer entries (exact comparison)", "index tensors are 1-d LongTensors",
-                      "steps are positive (torch rejects negative steps)"]
+               "ellipsis, index tensors incl. negative entries, batch items) of the enumerated families on every (n, t, batch, layout) - the families "
+               "contain every pairing of index kinds {int, slice, index tensor} for the two event dimensions incl. an index tensor paired with a "
+               "plain (negative) int, in both layouts, unbatched and behind every batch item (int, negative int, slices, and an index tensor in the batch position in front of int / slice event items) - plus chains d[i][j]; non-trivial = valid index selecting a proper subset; distinct = distinct (shape, layout, index chain)")
+    ck.assumptions = ["covariances are dense tensors with unique integer entries (exact comparison)", "index tensors are 1-d LongTensors (bool masks, 0-d / 2-d index tensors and Python lists are not accepted by __getitem__ and are outside the alphabet)",
+                      "steps are positive (torch rejects negative steps)",
+                      "an index tensor in a batch position is combined with int / slice event items only: zipped with an event index tensor it selects "
+                      "(point, task) pairs of different batch members, for which the property states no joint covariance"]
     ck.exhaustive = True
     wd = os.path.join(tlc.BUILD, PID)
     jobs, meta = [], []
@@ -222,12 +240,13 @@ def run(ck):
         jobs.append(((mod, cfg), dict(name=PID + "/run_" + name, timeout=1800, dump=True, check=False, workers=4, heap="4g")))
         meta.append((c, name, False))
     # the arithmetic of the pinned commit, as a prediction (documents what the repaired formulas fixed)
-    for fam in ("int_slice", "slice_int", "lists"):
+    for fam in ("int_slice", "slice_int", "lists", "mixed"):
         mod, cfg = write_mc(os.path.join(wd, "mc"), "pinned_" + fam, 3, 2, (), True, "pinned", fam, 1)
         jobs.append(((mod, cfg), dict(name=PID + "/pinned_" + fam, timeout=600, check=False, workers=2)))
         meta.append((dict(family=fam), "pinned-variant " + fam, True))
     results = tlc.run_many(jobs, parallel=4)
     items, preds = [], {}
+    pairings = {}      # (layout, batched, point kind, task kind, negative int/entry involved) -> valid generated cases
     for (c, name, pinned), res in zip(meta, results):
         ck.add_tlc(res, name)
         if pinned:
@@ -251,9 +270,23 @@ def run(ck):
                 longer.add(core.digest([s["idx"] for s in ch[:-1]]))
         chains = [ch for ch in chains if len(ch) > 1 or core.digest([s["idx"] for s in ch]) not in longer]
         ck.section("gen", configs=1, chains=len(chains))
+        rank = len(c["batch"]) + 2
+        for ch in chains:
+            idx0 = ch[0]["idx"]
+            if len(idx0) == rank and not ch[0]["err"] and all(it["k"] in KINDS for it in idx0[-2:]):
+                kp = (c["inter"], bool(c["batch"]), idx0[-2]["k"], idx0[-1]["k"], _has_neg(idx0[-2]) or _has_neg(idx0[-1]))
+                pairings[kp] = pairings.get(kp, 0) + 1
         for i in range(0, len(chains), 150):
             items.append(dict(N=c["N"], T=c["T"], batch=list(c["batch"]), inter=c["inter"], chains=chains[i:i + 150]))
     ck.extra["pinned_variant_predictions"] = preds
+    # the alphabet must contain every pairing of index kinds for the two event dimensions, in both layouts, without and
+    # with batch items in front, with and without a negative int / negative tensor entry (MTMVN.tla PairingsCovered)
+    missing = [kp for kp in itertools.product((True, False), (False, True), KINDS, KINDS, (False, True)) if not pairings.get(kp)]
+    if missing:
+        ck.vacuous("index pairings never generated as a valid case (layout, batched, point kind, task kind, negative): %s" % missing[:6])
+    ck.section("pairings", cells=len(pairings), valid_cases=sum(pairings.values()))
+    ck.extra["pairing_cases"] = {"%s/%s/%sx%s%s" % ("il" if k[0] else "ni", "batched" if k[1] else "plain", k[2], k[3], "/neg" if k[4] else ""): v
+                                 for k, v in sorted(pairings.items())}
     results = core.pmap(_worker, items, chunksize=1)
     ck.absorb(results)
     from checks import c11_layout, c11_ctor
